@@ -460,8 +460,13 @@ def cases(draw):
         # the same physical point written as +pi and then -pi (or vice versa): a repeated point on the antimeridian
         wrap_repeat = allow_minus_pi and draw(st.integers(0, 5)) == 0
         prev = None
+        # points of the crossing segment stay within 1.0 rad of the antimeridian (so |dlon| > pi there); in one third of
+        # the cases the other points may lie up to 1.9 rad away, so that a long track's first and last longitudes
+        # can be less than pi apart although it crosses the antimeridian (a trans-Pacific flight)
+        far = draw(st.integers(0, 2)) == 0
         for i in range(n):
             east = (i <= k) == east_first
+            W = 1.0 if i in (k, k + 1) else (1.9 if far else 1.5)
             kind = draw(st.sampled_from(['rand', 'rand', 'latline', 'lonline', 'corner', 'same', 'meridian', 'parallel', 'edge',
                                          'edge']))
             if wrap_repeat and i in (k, k + 1):
@@ -472,20 +477,20 @@ def cases(draw):
             if kind in ('parallel', 'same') and prev is not None:
                 la = prev[0]
             if east:
-                band = _lines_in(glon, PI - 1.5, PI)
-                lo = PI - 1.5 * _frac(draw)
+                band = _lines_in(glon, PI - W, PI)
+                lo = PI - W * (_frac(draw) if not (far and i in (0, n - 1) and W > 1.0) else 0.85 + 0.15 * _frac(draw))
                 if kind in ('lonline', 'corner') and band:
                     lo = draw(st.sampled_from(band))
                 if kind == 'edge':
                     lo = PI
             else:
-                band = _lines_in(glon, -PI, -PI + 1.5)
-                lo = -PI + 1.5 * _frac(draw)
+                band = _lines_in(glon, -PI, -PI + W)
+                lo = -PI + W * (_frac(draw) if not (far and i in (0, n - 1) and W > 1.0) else 0.85 + 0.15 * _frac(draw))
                 if kind in ('lonline', 'corner') and band:
                     lo = draw(st.sampled_from(band))
                 if kind == 'edge' and allow_minus_pi:
                     lo = -PI
-            if kind in ('meridian', 'same') and prev is not None and (i != k + 1):
+            if kind in ('meridian', 'same') and prev is not None and (i != k + 1) and not (i == k and abs(abs(prev[1]) - PI) > 1.0):
                 lo = prev[1]
             if wrap_repeat and i == k + 1:
                 la = prev[0]
@@ -660,14 +665,26 @@ def call_gridder(case, with_vars=True):
         integ = (np.ones(n - 1),) + tuple(np.array(v, dtype=float) for v in case['integ'])
     else:
         state, integ = (), ()
-    return g.grid_trajectory(
+    args = [
         np.array(case['lat'], dtype=float),
         np.array(case['lon'], dtype=float),
         None if case['alt'] is None else np.array(case['alt'], dtype=float),
         None if case['time'] is None else np.array(case['time'], dtype=float),
-        state,
-        integ,
-    )
+    ]
+    before = [None if a is None else a.copy() for a in args] + [v.copy() for v in state] + [v.copy() for v in integ]
+    out = g.grid_trajectory(*args, state, integ)
+    # the caller's arrays are inputs: gridding the same trajectory again (or summing it) afterwards must see the same data
+    after = args + list(state) + list(integ)
+    names = ['latitudes', 'longitudes', 'altitudes', 'times'] + [f'state[{i}]' for i in range(len(state))] + \
+        [f'integrated[{i}]' for i in range(len(integ))]
+    for nm, b, a in zip(names, before, after):
+        if b is not None and (b.shape != a.shape or b.tobytes() != a.tobytes()):
+            raise InputMutated(nm)
+    return out
+
+
+class InputMutated(Exception):
+    """grid_trajectory changed one of the arrays it was given."""
 
 
 def _am_cells(glat, glon, legs):
@@ -697,6 +714,8 @@ def classify(ctx, case, segs):
     glat, glon = case['glat'], case['glon']
     flags = set()
     flags.add('tmpl.' + case['tmpl'])
+    if case['tmpl'] == 'antimeridian' and abs(case['lon'][-1] - case['lon'][0]) <= PI and len(case['lon']) > 2:
+        flags.add('antimeridian_track_with_end_longitudes_within_pi')
     flags.add('grid.' + case['gkind'])
     flags.add('axes.alt' if case['alt'] is not None else 'axes.no_alt')
     flags.add('axes.time' if case['time'] is not None else 'axes.no_time')
@@ -848,6 +867,10 @@ def prepare(ctx, case):
         out = call_gridder(case)
     except core.PASS_THROUGH:
         raise
+    except InputMutated as e:
+        fail(ctx, 'inputs.mutated', 'mismatch', 'Gridder.grid_trajectory', case_disc(segs),
+             f'grid_trajectory modified its input array {e} in place (gridding or summing the same trajectory again gives other totals)')
+        return None
     except Exception as e:  # noqa: BLE001
         fail_exc(ctx, 'call', e, case_disc(segs))
         return None
